@@ -22,7 +22,7 @@ which is **needed** wherever the strategy may reorder elements (threads; shard s
 order) and is not needed for shards merged in shard order or for the stage runner.
 
 Theorems (all for every pipeline, dataset, thread count, shard count, partition and schedule):
-`C03_fuse`, `C03_fuse_ok`, `C03_fuse_rejected`, `C03_fuse_output`      — fused = chained;
+`C03_fuse`, `C03_assemble`, `C03_fuse_ok`, `C03_fuse_rejected`, `C03_fuse_output` — fused = chained;
 `C03_threads`, `C03_threads_agg`, `C03_threads_covers_interleavings`   — threads = sequential (multisets);
 `C03_shards`, `C03_shards_pipeline`, `C03_shards_any_order`            — merged shard states = whole run;
 `C03_queue_identity`, `C03_stage_runner`                               — the stage runner = sequential (lists);
@@ -72,6 +72,21 @@ theorem C03_fuse_rejected (a b : Stage E) (ha : a.aggs ≠ []) (hb : b.ops ≠ [
     cases hb' : b.ops with
     | nil => exact absurd hb' hb
     | cons _ _ => simp
+
+/-- **Every fusing/chaining through the public API.**  However the same operator list is cut into
+transforms and however these are joined (`chain` under a new name, or under the previous name =
+`_chain_and_fuse`): whenever both assemblies are accepted they give the same output stream and feed
+every aggregate the same stream.  (An assembly is refused — `ValueError` — exactly when it would put a
+function behind an aggregation inside one stage.) -/
+theorem C03_assemble (ts ts' : List (Attach × List (Item E))) (p q : List (Stage E))
+    (hsame : ts.flatMap (·.2) = ts'.flatMap (·.2))
+    (hp : assemble ts = .ok p) (hq : assemble ts' = .ok q) (xs : List E) :
+    output p xs = output q xs ∧ aggFeeds p xs = aggFeeds q xs := by
+  apply C03_fuse
+  have h1 := assemble_items_from ts [] p hp
+  have h2 := assemble_items_from ts' [] q hq
+  simp only [items, List.flatMap_nil, List.nil_append] at h1 h2
+  simp only [items, h1, h2, hsame]
 
 /-- The emitted *stream* does not depend on fusing at all (even the unguarded fuse), and in the
 chained form an inner stage's aggregates are fed that stage's own output, whatever follows. -/
